@@ -384,11 +384,14 @@ def m_slice_iter(it, st, fr, t, args, ga):
 
 
 def _opt_ref_num(it, st, c, fname):
-    """Option<&T> result of last()/max()/min() on a sequence: None iff empty"""
+    """Option<&T> (Option<T> for by-value iterators) result of last()/max()/min() on a sequence: None iff empty"""
     ety = c.elem_ty or {'k': 'uint', 'n': 'u8'}
+    by_value = bool(c.extra.get('by_value')) if c.extra else False
 
     def some_(it2, s2, f2):
         tm = select_term(fname, c.term, c.len, s2.ctx, ety)
+        if by_value:
+            return some(I.Num(tm, ety.get('n', 'u8')))
         cell = s2.new_cell(I.Num(tm, ety.get('n', 'u8')))
         return some(I.RefV(cell))
 
@@ -486,8 +489,9 @@ def _elem_value(it, st, c, idx_poly):
     return v
 
 
-def _closure_outcomes(it, st, clo, elem_value):
-    """abstract execution of a closure body that may branch: returns the list of end states (forked copies)"""
+def _closure_outcomes(it, st, clo, elem_value, extra_args=None):
+    """abstract execution of a closure body that may branch: returns the list of end states (forked copies).
+    The closure is called as clo(extra_args..., &elem_value)."""
     s2 = st.fork()
     fn = it.facts.fns.get(clo.path)
     if fn is None:
@@ -495,7 +499,11 @@ def _closure_outcomes(it, st, clo, elem_value):
     sub = I.Frame(fn, fn, {}, len(s2.frames))
     cl_cell = s2.new_cell(clo)
     sub.locals[1] = s2.new_cell(I.RefV(cl_cell, (), True))
-    sub.locals[2] = s2.new_cell(I.RefV(s2.new_cell(elem_value)))
+    k = 2
+    for a in (extra_args or []):
+        sub.locals[k] = s2.new_cell(a)
+        k += 1
+    sub.locals[k] = s2.new_cell(I.RefV(s2.new_cell(elem_value)))
     s2.frames.append(sub)
     s2.probe = (len(s2.frames) - 1, None, frozenset(range(len(fn['blocks']))))
     outs = it.run(s2)
@@ -680,6 +688,92 @@ def m_ref_into_iter(it, st, fr, t, args, ga):
     return I.ContV('slice_iter', c.term, length=c.len, elem_ty=c.elem_ty, extra=dict(c.extra))
 
 
+def m_copied(it, st, fr, t, args, ga):
+    c = _cont(it, st, args[0])
+    ex = dict(c.extra or {})
+    ex['by_value'] = True
+    return I.ContV(c.kind, c.term, length=c.len, elem_ty=c.elem_ty, extra=ex)
+
+
+def m_option_map(it, st, fr, t, args, ga):
+    e, clo = args[0], args[1]
+    v = _known_variant(e)
+    if v == 0:
+        return none()
+    if isinstance(clo, I.ClosureV):
+        return some(it.call_closure(st, clo, [e.payload[1][0]]))
+    raise I.InterpError('Option::map with non-closure')
+
+
+def m_option_copied(it, st, fr, t, args, ga):
+    e = args[0]
+    v = _known_variant(e)
+    if v == 0:
+        return none()
+    x = e.payload[1][0]
+    return some(it.deref(st, x) if isinstance(x, I.RefV) else x)
+
+
+def m_fold(it, st, fr, t, args, ga):
+    """Iterator::fold(iter, init, |acc, elem| ..): exact for short constant-length sequences, otherwise Kleene
+    iteration on the range of a numeric accumulator"""
+    c = _cont(it, st, args[0])
+    acc, clo = args[1], args[2]
+    if not isinstance(clo, I.ClosureV):
+        raise I.InterpError('fold with non-closure')
+    n = c.len.const_value() if c.len is not None else None
+    if n is not None and n <= 8:
+        try:
+            for i in range(int(n)):
+                ev = _elem_value(it, st, c, Poly.const(i))
+                acc = it.call_closure(st, clo, [acc, I.RefV(st.new_cell(ev))])
+            return acc
+        except I.InterpError as e:
+            if 'fork inside closure' not in str(e):
+                raise
+    if not isinstance(acc, I.Num):
+        raise I.InterpError('fold with a non-numeric accumulator over a sequence of unknown length')
+    cur = st.ctx.rng(acc.term)
+    last_outs = []
+    for rounds in range(6):
+        s1 = st.fork()
+        a = ('sym', s1.fresh_name('fold_acc'))
+        s1.ctx.ranges[a] = cur
+        if acc.ty in I.INT_RANGES:
+            s1.ctx.int_atoms.add(a)
+        ev = _elem_value(it, s1, c, s1.ctx.sym_range(s1.fresh_name('i'), 0, 2 ** 32, integer=True))
+        outs = _closure_outcomes(it, s1, clo, ev, [I.Num(Poly.atom(a), acc.ty)])
+        new = cur
+        for o in outs:
+            rv = o.state.cells.get(o.state.frames[-1].locals.get(0))
+            if not isinstance(rv, I.Num):
+                raise I.InterpError('fold closure returns %r' % (rv,))
+            lo, hi = o.ctx.rng(rv.term)
+            nlo, nhi = min(lo, new[0]), max(hi, new[1])
+            if rounds >= 3 and acc.ty in I.INT_RANGES:
+                tlo, thi = I.INT_RANGES[acc.ty]
+                nlo = Fr(tlo) if nlo < new[0] else nlo
+                nhi = Fr(thi) if nhi > new[1] else nhi
+            new = (nlo, nhi)
+        last_outs = outs
+        if new == cur:
+            break
+        cur = new
+    seen_keys = {(ob.key, ob.status) for ob in st.obligations}
+    for o in last_outs:
+        for ob in o.obligations:
+            if (ob.key, ob.status) not in seen_keys:
+                seen_keys.add((ob.key, ob.status))
+                st.obligations.append(ob)
+    if n == 0:
+        return acc
+    a = ('sym', st.fresh_name('after_fold'))
+    st.ctx.ranges[a] = cur
+    if acc.ty in I.INT_RANGES:
+        st.ctx.int_atoms.add(a)
+    return I.Num(Poly.atom(a), acc.ty)
+
+
 def m_slice_index(it, st, fr, t, args, ga):
     c = _cont(it, st, args[0])
     r = args[1]
@@ -774,7 +868,16 @@ def m_checked(op):
         a, b = _num(args[0]), _num(args[1])
         lo, hi = _int_bounds(a)
         r = {'add': a.term + b.term, 'sub': a.term - b.term, 'mul': a.term * b.term}[op]
-        inb = band(cmp_term('Ge', r, lo), cmp_term('Le', r, hi))
+        parts = []
+        for cnd in (cmp_term('Ge', r, lo), cmp_term('Le', r, hi)):
+            d = st.ctx.decide(cnd)
+            if d is False:
+                return none()
+            if d is None:
+                parts.append(cnd)
+        if not parts:
+            return some(I.Num(r, a.ty))
+        inb = parts[0] if len(parts) == 1 else band(parts[0], parts[1])
         return ('fork', [(inb, some(I.Num(r, a.ty))), (bnot(inb), none())])
     return m
 
@@ -940,5 +1043,14 @@ def registry():
         'core::iter::Iterator::skip': _iter_adaptor('skip'),
         'core::iter::Iterator::rev': _iter_adaptor('rev'),
         'core::iter::Iterator::sum': m_iter_sum,
+        'core::iter::Iterator::fold': m_fold,
+        'core::iter::Iterator::copied': m_copied,
+        'core::iter::Iterator::cloned': m_copied,
+        'core::option::Option::<T>::map': m_option_map,
+        'core::option::Option::<&T>::copied': m_option_copied,
+        'core::option::Option::<&T>::cloned': m_option_copied,
+        'heapless::vec::Vec::<T, N>::as_slice': m_vec_deref,
+        'heapless::vec::Vec::<T, N>::iter': m_vec_deref,
+        "<core::slice::Iter<'a, T> as core::iter::Iterator>::fold": m_fold,
     }
     return R
